@@ -14,9 +14,20 @@ fn main() {
             let tier = args.get(3).map(String::as_str).unwrap_or("quick");
             let tier = std::env::var("VERIF_TIER").ok().filter(|t| t == "quick" || t == "thorough").unwrap_or(tier.to_string());
             let t0 = Instant::now();
-            let Some(out) = props::run_property(prop, &tier) else {
-                eprintln!("unknown property {prop}");
-                std::process::exit(2);
+            let res = std::panic::catch_unwind(|| props::run_property(prop, &tier));
+            let out = match res {
+                Ok(Some(o)) => o,
+                Ok(None) => {
+                    eprintln!("unknown property {prop}");
+                    std::process::exit(2);
+                }
+                Err(_) => {
+                    // a panic that escaped the per-case guards: a verdict only if violations were
+                    // already reported, otherwise a machinery failure
+                    let reported = util::violations_emitted();
+                    eprintln!("MACHINERY: the harness panicked after {reported} reported violation(s): {}", util::take_last_panic().unwrap_or_default());
+                    std::process::exit(if reported > 0 { 1 } else { 2 });
+                }
             };
             let wall = t0.elapsed().as_secs_f64();
             props::finish(prop, &tier, &out, wall);
